@@ -207,6 +207,25 @@ def r7(ctx, prog):
     ctx.ob('C04.R7', '%s|flag' % f.name, bool(e_w) and all(not f.cfg.exists_path(q.pt(f, a), q.pt(f, s_)) for a in e_w for s_ in subs), 'is_enabled_ is set only after all subscriptions succeeded', where=f.loc(f.body))
 
 
+def r8(ctx, prog):
+    ctx.rule('C04.R8', 'A5 idempotent subscription ("exactly one callback per enabled event"): a subscriber is recorded in a unique-key container, '
+             'or enable() refuses to subscribe an already enabled event', floor=1)
+    s = prog.fn1(CL + '::subscribeSignal')
+    f = prog.fn1(SE + '::enable')
+    stores = [st for st in s.stmts if st and st['k'] == 'CXXMemberCallExpr' and st.get('fn') in ('insert', 'push_back', 'emplace', 'emplace_back', 'push_front', 'emplace_front')
+              and any(s.path(a) == 'who' for a in st.get('args', ()))]
+    if not stores:
+        raise AnalysisBroken('subscribeSignal: the statement recording the subscriber was not found')
+    subs = q.calls(f, callee=CL + '::subscribeSignal')
+    guarded = bool(subs) and all(any(x.endswith('is_enabled_') for g in f.cfg.controlling_branches(q.pt(f, c)) for x in q.subtree_paths(f, g[0])) for c in subs)
+    for st in stores:
+        uniq = st.get('cls', '').startswith(('std::set<', 'std::unordered_set<'))
+        ctx.ob('C04.R8', '%s|unique' % s.name, uniq or guarded,
+               'subscriber recorded with %s::%s%s' % (st.get('cls', '?').split('<')[0], st.get('fn'), '' if uniq else ' and enable() is guarded by is_enabled_') if uniq or guarded else
+               'subscriber recorded with %s::%s, which keeps duplicates, and enable() does not test is_enabled_: enabling an event twice gives two callbacks per delivery and '
+               'one disable() leaves a live subscription behind' % (st.get('cls', '?').split('<')[0], st.get('fn')), where=s.loc(st['i']))
+
+
 def run(ctx):
     prog = extract('ALL' if ctx.tier == 'thorough' else SCOPE)
     ctx.guard(r1, ctx, prog)
@@ -216,4 +235,5 @@ def run(ctx):
     ctx.guard(r5, ctx, prog)
     ctx.guard(r6, ctx, prog)
     ctx.guard(r7, ctx, prog)
+    ctx.guard(r8, ctx, prog)
     return prog
